@@ -459,7 +459,10 @@ def nfa(
                 connect(compile(expr["expr"], cur), next)
                 cur = next
             if expr["max"] == -1:
-                connect(compile(expr["expr"], cur), cur)
+                loop = node()
+                edge(cur, loop)
+                connect(compile(expr["expr"], loop), loop)
+                cur = loop
             else:
                 for _i in range(expr["min"], expr["max"]):
                     next = node()
